@@ -41,6 +41,15 @@ def unitary_case(draw, max_n=8):
 
 
 @st.composite
+def rounded_case(draw):
+    """A unitary written down with 10 decimals (as when it is loaded from a text file): unitary to ~5e-11,
+    which lightworks accepts (unitary_precision = 1e-10)."""
+    n = draw(st.integers(2, 6))
+    return {"n": n, "unitary": [[draw(st.sampled_from(["haar", "haar", "real", "block", "dft"])),
+                                 draw(st.integers(0, 10 ** 6))]], "prog": None, "round": draw(st.sampled_from([10, 10, 11]))}
+
+
+@st.composite
 def circuit_case(draw):
     prog = draw(st.one_of(gen.program(min_n=2, max_n=5, depth=2, max_ops=6, lossy=False),
                           gen.addition_tree(max_n=4, max_adds=2, lossy=False)))
@@ -99,6 +108,12 @@ def make_circuit(case):
     U = np.eye(n, dtype=complex)
     for kind, seed in case["unitary"]:
         U = make_unitary(kind, n, seed) @ U
+    if case.get("round"):
+        U = np.round(U, case["round"])
+        try:
+            return lw.Unitary(U)
+        except ValueError:
+            return None          # rounding pushed it past lightworks' own unitarity tolerance: outside the domain
     return lw.Unitary(U)
 
 
@@ -129,6 +144,8 @@ def components(circ):
 def run_ideal(case):
     from lightworks import interferometers
     c = make_circuit(case)
+    if c is None:
+        return {"nontrivial": False, "labels": ["rounded-matrix-rejected-as-non-unitary"]}
     U = c.U
     mapped = call("Reck().map", interferometers.Reck().map, c)
     ps, bs, loss, other = components(mapped)
@@ -157,7 +174,9 @@ def run_ideal(case):
         labels.append("circuit-with-heralds" if c.heralds["input"] else "circuit")
     else:
         labels.append("kind:" + case["unitary"][0][0])
-    return {"nontrivial": structured or bool(c.heralds["input"]), "labels": labels}
+    if case.get("round"):
+        labels.append("rounded-accepted")
+    return {"nontrivial": structured or bool(c.heralds["input"]) or bool(case.get("round")), "labels": labels}
 
 
 def run_noisy(case):
@@ -257,6 +276,7 @@ def subs(tier):
     q = tier == "quick"
     return [
         Sub("ideal-unitaries", run_ideal, strategy=unitary_case(max_n=8 if q else 10), examples=200 if q else 8000),
+        Sub("rounded-unitaries", run_ideal, strategy=rounded_case(), examples=100 if q else 3000),
         Sub("ideal-circuits", run_ideal, strategy=circuit_case(), examples=100 if q else 3000),
         Sub("error-models", run_noisy, strategy=noisy_case(), examples=100 if q else 4000),
     ]
